@@ -119,9 +119,22 @@ def make_solver(kind, attrs, fileP, seed, NP):
     if fl.get("pen"):
         s.SetPenalty(pen)
     if attrs["em"]:
-        M = (lambda: VerboseMonitor(0, 0)) if fl.get("mon") == "Verbose" else Monitor
-        s.SetGenerationMonitor(M())
-        s.SetEvaluationMonitor(M())
+        # the monitor classes and their cost multiplier k rotate with the seed: plain / verbose as the setting says, the
+        # same with k=2 (stored costs are k*cost, reported ones cost), and the logging classes with k=2 writing to
+        # scratch files next to the restart file (what a monitor pickles must restore the STORED values)
+        from mystic.monitors import LoggingMonitor, VerboseLoggingMonitor
+        verbose = fl.get("mon") == "Verbose"
+        rot = (seed + attrs["id"] + len(kind)) % 3
+        def M(tag):
+            if rot == 0:
+                return VerboseMonitor(0, 0) if verbose else Monitor()
+            if rot == 1:
+                return VerboseMonitor(0, 0, k=2) if verbose else Monitor(k=2)
+            fn = "%s.%s.log" % (fileP, tag)
+            return (VerboseLoggingMonitor(1, 0, filename=fn, new=True, k=2) if verbose
+                    else LoggingMonitor(1, filename=fn, new=True, k=2))
+        s.SetGenerationMonitor(M("step"))
+        s.SetEvaluationMonitor(M("eval"))
     if attrs["sf"] > 0:
         s.SetSaveFrequency(attrs["sf"], fileP)
     if attrs["lim"] >= 0 or attrs["le"] >= 0:
@@ -288,7 +301,14 @@ class Group(object):
         insts[2] = o
         dbytes = [None]
         claims = 0
-        self.reference(sc["refops"], sc["nw"])
+        try:
+            self.reference(sc["refops"], sc["nw"])
+        except RuntimeError:
+            raise
+        except Exception as ex:      # mystic itself raised while the uninterrupted reference ran: a violation, not a
+            self.report("raises:%s:reference-run:%s" % (kind, type(ex).__name__), sc, -1,      # machinery failure
+                        "%s: the uninterrupted reference run raised %r" % (hdrtxt, ex))
+            return claims
 
         for n, op in enumerate(sc["ops"]):
             c, x, y = op["c"], op["x"], op["y"]
